@@ -106,52 +106,62 @@ Proof.
     cbn [map]. rewrite N. f_equal. now apply IH.
 Qed.
 
+Lemma fold_count_rows : forall (rows : list row) s,
+  exists s', fold_upd KCount s (map (fun _ => Some (VInt 1)) rows) = SOk s' /\ st_count s' = st_count s + zlen rows.
+Proof.
+  induction rows as [|v t IH]; intros s; cbn [map fold_upd upd sbind].
+  - exists s; split; [reflexivity|]. unfold zlen; cbn; lia.
+  - destruct (IH (with_count s (st_count s + 1))) as [s' [E C]]. exists s'; split; [exact E|].
+    rewrite C, zlen_cons; cbn [with_count st_count]; lia.
+Qed.
 Lemma kind_of_mfn_of : forall a, kind_of (mfn_of a) = kind_of_fn (a_fn a).
 Proof. intros [f e]; destruct f; reflexivity. Qed.
 
 (* the aggregate of the reference over the rows of a group is what the fold of update finalizes to *)
 Theorem agg_run_spec : forall a rows v,
   plain_agg a = true -> agg_spec a rows = AVal v ->
-  (forall vs, map_opt (eval (a_arg a)) rows = Some vs -> vals_class (a_fn a) vs = 0 /\ int_sums (a_fn a) vs = true) ->
+  (forall vs, map_opt (eval (a_arg a)) rows = Some vs -> int_sums (a_fn a) vs = true) ->
   exists s, run_agg (mfn_of a) st0 rows = SOk s /\ finalize (mfn_of a) s = v.
 Proof.
   intros [f e] rows v Pa S Hcls. unfold agg_spec in S. cbn [a_fn a_arg] in *.
-  rewrite run_agg_fold. unfold finalize. rewrite kind_of_mfn_of. cbn [a_fn].
+  unfold finalize. rewrite kind_of_mfn_of. cbn [a_fn].
   destruct f.
   - (* COUNT( * ) *)
-    injection S as <-. cbn [kind_of_fn mfn_of a_fn kind_of].
-    destruct (fold_count (map (fun r : row => nth_error r (col_of MCount)) rows) st0) as [s [E N]].
-    exists s; split; [exact E|]. cbn [fin]. rewrite N, zlen_map. reflexivity.
-  - (* COUNT(c) *)
-    unfold plain_agg in Pa; cbn [a_fn a_arg] in Pa. destruct (is_plain_col _ Pa) as [c ->].
-    destruct (map_opt (eval (ECol c)) rows) as [vs|] eqn:M; [|discriminate].
-    destruct (Hcls vs eq_refl) as [C _]. cbn [vals_class] in C. destruct (existsb is_null vs) eqn:Nn; [discriminate|].
-    cbn [agg_vals] in S. rewrite (nonnull_all vs Nn) in S. injection S as <-.
-    cbn [kind_of_fn mfn_of a_fn kind_of].
-    destruct (fold_count (map (fun r : row => nth_error r (col_of MCount)) rows) st0) as [s [E N]].
-    exists s; split; [exact E|]. cbn [fin]. rewrite N, zlen_map. cbn [st0 st_count]. f_equal.
-    apply map_opt_length in M. unfold zlen. rewrite M. lia.
+    injection S as <-.
+    change (mfn_of {| a_fn := FCountStar; a_arg := e |}) with (MCount AStar).
+    rewrite (run_agg_fold (MCount AStar) rows _ st0 (arg_vals_star rows)). cbn [kind_of kind_of_fn].
+    destruct (fold_count_rows rows st0) as [s [E N]].
+    exists s; split; [exact E|]. cbn [fin]. rewrite N. reflexivity.
   - unfold plain_agg in Pa; cbn [a_fn a_arg] in Pa. destruct (is_plain_col _ Pa) as [c ->].
     destruct (map_opt (eval (ECol c)) rows) as [vs|] eqn:M; [|discriminate].
-    destruct (Hcls vs eq_refl) as [C I]. cbn [mfn_of a_fn arg_col plain_col a_arg col_of].
-    rewrite (map_opt_col c rows vs M). apply (agg_fold_spec FSum vs v C I S).
+    change (mfn_of {| a_fn := FCount; a_arg := ECol c |}) with (MCount (ACol c)).
+    rewrite (run_agg_fold (MCount (ACol c)) rows _ st0 (arg_vals_col c rows)). rewrite (map_opt_col c rows vs M).
+    apply (agg_fold_spec FCount vs v (Hcls vs eq_refl) S).
   - unfold plain_agg in Pa; cbn [a_fn a_arg] in Pa. destruct (is_plain_col _ Pa) as [c ->].
     destruct (map_opt (eval (ECol c)) rows) as [vs|] eqn:M; [|discriminate].
-    destruct (Hcls vs eq_refl) as [C I]. cbn [mfn_of a_fn arg_col plain_col a_arg col_of].
-    rewrite (map_opt_col c rows vs M). apply (agg_fold_spec FAvg vs v C I S).
+    change (mfn_of {| a_fn := FSum; a_arg := ECol c |}) with (MSum (ACol c)).
+    rewrite (run_agg_fold (MSum (ACol c)) rows _ st0 (arg_vals_col c rows)). rewrite (map_opt_col c rows vs M).
+    apply (agg_fold_spec FSum vs v (Hcls vs eq_refl) S).
   - unfold plain_agg in Pa; cbn [a_fn a_arg] in Pa. destruct (is_plain_col _ Pa) as [c ->].
     destruct (map_opt (eval (ECol c)) rows) as [vs|] eqn:M; [|discriminate].
-    destruct (Hcls vs eq_refl) as [C I]. cbn [mfn_of a_fn arg_col plain_col a_arg col_of].
-    rewrite (map_opt_col c rows vs M). apply (agg_fold_spec FMin vs v C I S).
+    change (mfn_of {| a_fn := FAvg; a_arg := ECol c |}) with (MAvg (ACol c)).
+    rewrite (run_agg_fold (MAvg (ACol c)) rows _ st0 (arg_vals_col c rows)). rewrite (map_opt_col c rows vs M).
+    apply (agg_fold_spec FAvg vs v (Hcls vs eq_refl) S).
   - unfold plain_agg in Pa; cbn [a_fn a_arg] in Pa. destruct (is_plain_col _ Pa) as [c ->].
     destruct (map_opt (eval (ECol c)) rows) as [vs|] eqn:M; [|discriminate].
-    destruct (Hcls vs eq_refl) as [C I]. cbn [mfn_of a_fn arg_col plain_col a_arg col_of].
-    rewrite (map_opt_col c rows vs M). apply (agg_fold_spec FMax vs v C I S).
+    change (mfn_of {| a_fn := FMin; a_arg := ECol c |}) with (MMin (ACol c)).
+    rewrite (run_agg_fold (MMin (ACol c)) rows _ st0 (arg_vals_col c rows)). rewrite (map_opt_col c rows vs M).
+    apply (agg_fold_spec FMin vs v (Hcls vs eq_refl) S).
+  - unfold plain_agg in Pa; cbn [a_fn a_arg] in Pa. destruct (is_plain_col _ Pa) as [c ->].
+    destruct (map_opt (eval (ECol c)) rows) as [vs|] eqn:M; [|discriminate].
+    change (mfn_of {| a_fn := FMax; a_arg := ECol c |}) with (MMax (ACol c)).
+    rewrite (run_agg_fold (MMax (ACol c)) rows _ st0 (arg_vals_col c rows)). rewrite (map_opt_col c rows vs M).
+    apply (agg_fold_spec FMax vs v (Hcls vs eq_refl) S).
 Qed.
 
 Corollary agg_frun_spec : forall a rows v,
   plain_agg a = true -> agg_spec a rows = AVal v ->
-  (forall vs, map_opt (eval (a_arg a)) rows = Some vs -> vals_class (a_fn a) vs = 0 /\ int_sums (a_fn a) vs = true) ->
+  (forall vs, map_opt (eval (a_arg a)) rows = Some vs -> int_sums (a_fn a) vs = true) ->
   (exists s, run_agg (mfn_of a) st0 rows = SOk s) /\ frun (mfn_of a) rows = v.
 Proof.
   intros a rows v Pa S H. destruct (agg_run_spec a rows v Pa S H) as [s [E F]].
